@@ -521,10 +521,20 @@ class FuncInfo:
                 plain = all(isinstance(t, ast.Name) or (isinstance(t, (ast.Tuple, ast.List)) and all(
                     isinstance(e, ast.Name) for e in t.elts)) for t in s.targets)
                 if plain:
-                    # still in place if a mutating call sits in the value
+                    # still in place if a MUTATING method of the object is called in the value
+                    from .normal import MUTATING_METHODS
                     plain = not any(isinstance(c, ast.Call) and isinstance(c.func, ast.Attribute) and
+                                    c.func.attr in MUTATING_METHODS and
                                     isinstance(c.func.value, ast.Name) and c.func.value.id == name for c in ast.walk(s.value))
+                    if plain:
+                        plain = not any(isinstance(c, ast.Call) and any(
+                            k.arg == 'out' and isinstance(k.value, ast.Name) and k.value.id == name for k in c.keywords)
+                            for c in ast.walk(s.value))
             elif isinstance(s, ast.AnnAssign):
+                plain = isinstance(s.target, ast.Name)
+            elif isinstance(s, ast.AugAssign):
+                # `x op= v` on a bare name is tracked as a definition of x by
+                # the reaching-definitions analysis
                 plain = isinstance(s.target, ast.Name)
             if not plain:
                 out.append(s)
